@@ -1379,6 +1379,7 @@ func runC04(c *core.Ctx) core.Meta {
 	checkVOP3PModifiers(c, t)
 	checkModifierFlags(c)
 	checkOperandsFresh(c)
+	checkWidthColumn(c)
 	checkFlatOpcodes(c, t)
 	checkDSOperands(c, t)
 	checkFieldCoverage(c, core.NewLocalProv(c))
